@@ -11,6 +11,7 @@ VERIF = K.VERIF
 EVID = os.path.join(VERIF, "evidence")
 REPLAYS = os.path.join(VERIF, "replays")
 KNOWN = os.path.join(VERIF, "known_findings.txt")
+MAX_REPLAYS = int(os.environ.get("VERIF_MAX_REPLAYS", "2"))
 
 
 def log(*a):
@@ -173,6 +174,7 @@ def check(pid, tier, seed):
     violations = []  # (what, replay)
     known_hits = []
     inconclusive = []
+    unreplayed = []
     for part in spec["parts"]:
         if part["engine"] == "kani":
             try:
@@ -183,10 +185,16 @@ def check(pid, tier, seed):
                 continue
             r["engine"] = "kani"
             parts_out.append(r)
-            for h in r["harnesses"]:
+            for h in sorted(r["harnesses"], key=lambda h: (h["harness"] not in known, h["harness"])):
                 if h["status"] == "inconclusive":
                     inconclusive.append("%s: %s" % (h["harness"], h["reason"]))
                 elif h["status"] == "fail":
+                    confirmed = len(violations) + len(known_hits)
+                    if confirmed >= MAX_REPLAYS and h["harness"] not in known:
+                        # enough natively confirmed counterexamples in this run; list the rest without replaying them
+                        h["replayed_natively"] = None
+                        unreplayed.append(h["harness"])
+                        continue
                     okr, rp = kani_playback(part["group"], h["harness"], pid, h.get("pretty"))
                     h["replayed_natively"] = okr
                     h["replay"] = rp
@@ -213,6 +221,8 @@ def check(pid, tier, seed):
     for what, rp in violations:
         print("VIOLATION property=%s replay=%s" % (pid, rp))
         log("  violation: " + what)
+    if unreplayed:
+        log("  further failing harnesses (not replayed, %d confirmed already): %s" % (MAX_REPLAYS, ", ".join(unreplayed)))
     if violations:
         return 1
     if inconclusive:
